@@ -601,6 +601,11 @@ func (st *runState) finish(start time.Time) int {
 	findings := loadFindings()
 	replayDir := filepath.Join(verifDir, "replay")
 	os.MkdirAll(replayDir, 0o755)
+	if old, _ := filepath.Glob(filepath.Join(replayDir, fmt.Sprintf("%s-%s-s%d-*.json", st.prop, st.tier, st.seed))); len(old) > 0 {
+		for _, f := range old { // replay files of an earlier run of the same check
+			os.Remove(f)
+		}
+	}
 	sort.SliceStable(st.viols, func(i, j int) bool { return st.viols[i].Idx < st.viols[j].Idx })
 	knownHits := map[int]int{}
 	type sig struct{ scen, kind, site string }
